@@ -214,6 +214,8 @@ def finish_path(ex, c, env, entry, o, is_gen):
     for kname, v in o.ghost.items():
         if kname.startswith("view_"):
             senv[kname] = v
+        elif kname.startswith("loopiter_"):
+            senv["iter%s_" % kname[9:]] = Seq(v[0], v[1])     # what for-loop number k iterated over, as a sequence
     sel = getattr(ex.ctx, "clause_sel", None)
     if c.ghost.get("locals_visible"):
         # the function's local variables at exit, readable in clauses as local_<name> (for stepping-stone clauses)
@@ -225,11 +227,14 @@ def finish_path(ex, c, env, entry, o, is_gen):
         lab, text = ent[0], ent[1]
         nd = getattr(c, "ensure_needs", {}).get(lab)
         needs = (set(nd) | {lab}) if nd is not None else None
-        if sel and ((sel[0] == "skip" and lab in sel[1]) or (sel[0] == "only" and lab not in sel[1])):
+        skipped = sel and ((sel[0] == "skip" and lab in sel[1]) or (sel[0] == "only" and lab not in sel[1]))
+        if skipped and not chain:
             continue
-        f = ex.spec_formula(text, senv, o, old_st=entry)
-        ex.oblig("post", lab, o, _b(f), keep_invs=needs)
+        if not skipped:
+            f = ex.spec_formula(text, senv, o, old_st=entry)
+            ex.oblig("post", lab, o, _b(f), keep_invs=needs)
         if chain:
+            # (a clause whose obligation belongs to the other arithmetic pass is still a hypothesis for the later ones)
             # cut rule: a clause that has its own obligation may be used to prove the clauses after it
             # (re-read in assume mode: a `use(lemma)` hint inside it is a proof step of the clause, not part of the fact)
             ex.assume_mode += 1
